@@ -70,6 +70,8 @@ def findingOf (cfg : Cfg) (q : Query) (store : List Rec) (causes : List String) 
   let window := (if q.slot.isTime && (q.fromT.isSome || q.toT.isSome) && !bsAllLt cfg then ["C07-window-bounds-operator"] else []) ++
     (if q.slot.isTime && !cfg.windowBoundsChecked && (outside q.fromT || outside q.toT) then ["C07-window-bound-wraps"] else [])
   let cold (f : Bool) := if !f && store.any (fun r => !carries q.slot r) then ["C07-cold-build-no-zero-filter"] else []
+  (if !cfg.claimLoserRefiled && store.any (fun r => carries q.slot r && !l.any (fun x => x.key == r.key))
+    then ["C07-claim-loser-dropped"] else []) ++
   match q.slot with
   | .value t =>
     if store.any (fun r => r.ct != t) then ["C07-value-index-mixed-types"]
@@ -91,10 +93,27 @@ def flagStr (fs : List String) : String := String.join (fs.map (fun f => "\t#F:"
 structure DSt where
   cfg : Cfg
   s : St
+  /-- a shift held between its selection pass and its deletes (op `sheld`): threshold, selected keys -/
+  held : Option (Int × List String) := none
 
 def step (d : DSt) (line : String) : DSt × String :=
   match line.splitOn " " with
-  | ["case", _] => ({ d with s := St.init }, line)
+  | ["case", _] => ({ d with s := St.init, held := none }, line)
+  | ["sheld", idx, ord, n, v] =>
+    match slotOf idx, n.toNat?, v.toInt? with
+    | some sl, some n, some v =>
+      if (ord != "asc" && ord != "desc") || d.held.isSome then (d, "bad-op") else
+      if d.s.store.isEmpty then (d, "done") else
+      let q : Query := { slot := sl, asc := ord == "asc", from_ := 0, limit := n, fromT := none, toT := none }
+      let (s', keys) := claimSelect d.cfg d.s q v
+      ({ d with s := s', held := some (v, keys) }, "held")
+    | _, _, _ => (d, "bad-op")
+  | ["srelease"] =>
+    match d.held with
+    | none => (d, "ok")
+    | some (v, keys) =>
+      let (s', claimed) := claimRelease d.cfg d.s v keys
+      ({ d with s := s', held := none }, "r " ++ ",".intercalate claimed)
   | ["set", k, t, v, c, u, e] =>
     match ctOf t, v.toInt?, c.toInt?, u.toInt?, e.toInt? with
     | some ct, some v, some c, some u, some e =>
@@ -216,7 +235,8 @@ def run (args : List String) : IO UInt32 := do
     typeChangeDetected := yes kv "typeChangeDetected", valueShared := yes kv "valueShared",
     flagsSticky := yes kv "flagsSticky", setVoidClearsTyped := yes kv "setVoidClearsTyped",
     initialisedAfterFill := yes kv "initialisedAfterFill", refileGuardExpire := yes kv "refileGuardExpire",
-    patchExpiredReindexesAll := yes kv "patchExpiredReindexesAll", windowBoundsChecked := yes kv "windowBoundsChecked" }
+    patchExpiredReindexesAll := yes kv "patchExpiredReindexesAll", windowBoundsChecked := yes kv "windowBoundsChecked",
+    claimLoserRefiled := yes kv "claimLoserRefiled" }
   lineLoop step { cfg := cfg, s := St.init }
   return 0
 
